@@ -173,3 +173,55 @@ PROPS.update({
               proj_name="C20: abort kinds vs from-scratch build of all known tasks",
               known_match=known_if_model_agrees("K3", OB.c20)),
 })
+
+
+# ----------------------------------------------------------------------------- library properties
+import gen_lib as GL
+
+
+def lib_stream(kind, fixed, gen, nq, nt):
+    def generate(rng, tier, seed):
+        cases = [Case(kind, f"fixed{i}", b) for i, b in enumerate(fixed)]
+        n = nq if tier == "quick" else nt
+        for i in range(n):
+            cases.append(Case(kind, f"{kind}-{seed}-{i}", gen(random.Random(rng.getrandbits(48)))))
+        return cases, dict(fixed_cases=len(fixed), random_cases=n)
+    return generate
+
+
+def mklib(prop, kind, fixed, gen, nq, nt, oracle, rule, **kw):
+    return dict(kinds=[kind], generate=lib_stream(kind, fixed, gen, nq, nt), proj=lambda c, l: l, oracle=oracle,
+                nontrivial=lambda c, io: len(c.body) >= 3, rule=rule, lean_targets=[f"PieModel.Props.{prop}"], theorems=[], **kw)
+
+
+PROPS.update({
+    "C12": mklib("C12", "lib12", [GL.lib12_all()], lambda r: [f"chk {r.randint(0, 4)} {r.randint(-50, 50)} {r.randint(-50, 50)}" for _ in range(30)], 20, 2000,
+                 GL.oracle12, "all pairs over a 6-element Result<i64,i64> domain x 5 checkers (exhaustive for that domain) + random pairs; also through OutputCheckerObj",
+                 proj_name="C12: stamps and verdicts of the five built-in output checkers"),
+    "C14": mklib("C14", "lib14", [], GL.gen14, 200, 20000, GL.oracle14,
+                 "random sequences of insert/remove/entry/get operations through writers and through Pie::resource_state_mut over two key types, and typed state accesses (get/get_mut/set/set_boxed/get_or_set_default with matching and non-matching types) over three resource types",
+                 proj_name="C14: results of every map / resource-state operation"),
+    "C15": mklib("C15", "lib15", [], GL.gen15, 150, 10000, GL.oracle15,
+                 "requires of same-valued tasks of five task types (two newtypes with identical Debug/Hash, Box/Rc/Arc wrappers) reading same-valued resources of two key types; cross-type key equality queries",
+                 proj_name="C15: outputs, executions, node counts, key equality"),
+})
+# C17: add the library stream (EventTracker, helpers, composite) to the build stream
+_c17b = PROPS["C17"]
+_g17 = lib_stream("lib17", [GL.lib17_exhaustive()], GL.gen17, 80, 5000)
+
+
+def _gen17(rng, tier, seed, _b=_c17b["generate"]):
+    c1, s1 = _b(rng, tier, seed)
+    c2, s2 = _g17(rng, tier, seed)
+    return c1 + c2, dict(s1, **{"lib17_" + k: v for k, v in s2.items()})
+
+
+PROPS["C17"] = dict(_c17b, kinds=["build", "lib17"], generate=_gen17,
+                    proj=lambda c, l, _p=_c17b["proj"]: (l if c.kind == "lib17" else _p(c, l)),
+                    oracle=lambda c, io: (GL.oracle17(c, io) if c.kind == "lib17" else OB.c17(c, io)),
+                    lean_targets=["PieModel.Props.C17"])
+
+PROPS["C13"] = mklib("C13", "lib13", GL.lib13_fixed(), GL.gen13, 150, 6000, GL.oracle13,
+                     "operation sequences on real temporary files/directories with explicitly set modification times: files of sizes 0,1,5,8191,8192,8193,65537, "
+                     "directories with name sets chosen to collide under concatenation, removal, touch; three checkers x three stamping routes; checks of every earlier stamp",
+                     proj_name="C13: stamps (hashes as first-occurrence indices), verdicts, bytes read after stamp_reader, write results")
